@@ -56,6 +56,14 @@ instance [Neg α] : HasConj (Cx α) := ⟨fun a => ⟨a.re, -a.im⟩⟩
 def ofReal [Zero α] (x : α) : Cx α := ⟨x, 0⟩
 end Cx
 
+/-- exact test `x == 0` on a scalar of any dtype (`Float`: IEEE `==`; `Cx`: both parts) -/
+class HasIsZero (α : Type) where
+  isZ : α → Bool
+export HasIsZero (isZ)
+
+instance : HasIsZero Float := ⟨fun x => x == 0⟩
+instance {α : Type} [HasIsZero α] : HasIsZero (Cx α) := ⟨fun z => isZ z.re && isZ z.im⟩
+
 /-- `1 + 1`, `5` without numerals (the models are polymorphic over operation classes) -/
 def two {α : Type} [Add α] [One α] : α := 1 + 1
 def five {α : Type} [Add α] [One α] : α := (1 + 1) + (1 + 1) + 1
@@ -262,10 +270,13 @@ structure ATAD (α : Type) (m n : Nat) where
   W : Vec α m
 
 section ATADsec
-variable {α : Type} [Add α] [Sub α] [Mul α] [Div α] [Zero α] [One α] [HasConj α] {m n : Nat}
+variable {α : Type} [Add α] [Sub α] [Mul α] [Div α] [Zero α] [One α] [HasConj α] [HasIsZero α] {m n : Nat}
 
-/-- branch `N < M and D.ndim == 1`  (`N, M = A.shape`) -/
-def ATAD.useWoodbury (s : ATAD α m n) : Bool := decide (m < n) && s.D.isDiag
+/-- `snp.all(W != 0)` -/
+def allNonzero (W : Vec α m) : Bool := (List.ofFn fun i => !(isZ (W i))).all id
+
+/-- branch `self.woodbury = bool(N < M and D.ndim == 1 and snp.all(W != 0))`  (`N, M = A.shape`; repo 58aa0a9) -/
+def ATAD.useWoodbury (s : ATAD α m n) : Bool := decide (m < n) && s.D.isDiag && allNonzero s.W
 
 /-- `G = snp.diag(1.0 / W) + A @ (A.T.conj() / D[:, snp.newaxis])` -/
 def gWoodbury (A : Mat α m n) (d : Vec α n) (W : Vec α m) : Mat α m m :=
@@ -280,7 +291,7 @@ def gDirect (A : Mat α m n) (D : DMat α n) (W : Vec α m) : Mat α n n :=
 def ATAD.solve (s : ATAD α m n) (fsW : Vec α m → Vec α m) (fsD : Vec α n → Vec α n) (b : Vec α n) : Vec α n :=
   match s.D with
   | .diag d =>
-    if m < n then
+    if s.useWoodbury then
       let w := fsW (mulVec s.A (fun k => b k / d k))
       let AHw := mulVec (conjT s.A) w
       fun k => (b k - AHw k) / d k
@@ -292,7 +303,7 @@ def ATAD.solveM {k : Nat} (s : ATAD α m n) (fsW : Mat α m k → Mat α m k) (f
     (b : Mat α n k) : Mat α n k :=
   match s.D with
   | .diag d =>
-    if m < n then
+    if s.useWoodbury then
       let w := fsW (matMul s.A (fun i l => b i l / d i))
       let AHw := matMul (conjT s.A) w
       fun i l => (b i l - AHw i l) / d i
@@ -302,7 +313,7 @@ def ATAD.solveM {k : Nat} (s : ATAD α m n) (fsW : Mat α m k → Mat α m k) (f
 /-- the matrix the solver factorises, whichever branch -/
 def ATAD.gOf (s : ATAD α m n) : (Σ k : Nat, Mat α k k) :=
   match s.D with
-  | .diag d => if m < n then ⟨m, gWoodbury s.A d s.W⟩ else ⟨n, gDirect s.A s.D s.W⟩
+  | .diag d => if s.useWoodbury then ⟨m, gWoodbury s.A d s.W⟩ else ⟨n, gDirect s.A s.D s.W⟩
   | .full _ => ⟨n, gDirect s.A s.D s.W⟩
 
 /-- `A.T.conj() @ (W[:, snp.newaxis] * A) @ x + D x`  (what `accuracy` compares with `b`) -/
